@@ -16,9 +16,12 @@ __all__ = ['CSSProductions', 'MACROS', 'PRODUCTIONS']
 # a complete list of css3 macros
 MACROS = {
     'nonascii': r'[^\0-\177]',
-    'unicode': r'\\[0-9A-Fa-f]{1,6}(?:{nl}|{s})?',
+    # one way to match only: as many hex digits as there are (max 6),
+    # then at most one white space (\r\n counts as one)
+    'unicode': r'\\(?:[0-9A-Fa-f]{6}|[0-9A-Fa-f]{1,5}(?![0-9A-Fa-f]))'
+    r'(?:\r\n|[ \t\r\n\f]|(?![ \t\r\n\f]))',
     # 'escape': r'{unicode}|\\[ -~\200-\777]',
-    'escape': r'{unicode}|\\[^\n\r\f0-9a-f]',
+    'escape': r'{unicode}|\\[^\n\r\f0-9a-fA-F]',
     'nmstart': r'[_a-zA-Z]|{nonascii}|{escape}',
     'nmchar': r'[-_a-zA-Z0-9]|{nonascii}|{escape}',
     'string1': r'"([^\n\r\f\\"]|\\{nl}|{escape})*"',
